@@ -3,6 +3,8 @@ Lemmas for C08 (Props/C08.lean): the verify-callback run, conn_tls_start, the sc
 -/
 import Strophe.Model.TlsTrust
 
+set_option linter.unusedSimpArgs false
+
 namespace Strophe.Lemmas.TlsTrust
 open Strophe Strophe.Spec.OpenSsl Strophe.TlsTrust
 
@@ -52,5 +54,220 @@ theorem accepted_run_iff (h : Option Handler) (l : List VCall) (k : Nat) :
         · have := ih (k + 1)
           simp [run, hr, h0, hv, accepted, AcceptedFrom] at this ⊢
           exact this
+
+/-- index form of `AcceptedFrom` -/
+theorem acceptedFrom_iff (h : Option Handler) (fs : List VCall) (k : Nat) :
+    AcceptedFrom h k fs ↔ ∀ j v, fs[j]? = some v → ∃ f, h = some f ∧ f (k + j) v.depth v.err ≠ 0 := by
+  induction fs generalizing k with
+  | nil => simp [AcceptedFrom]
+  | cons a as ih =>
+    simp only [AcceptedFrom, ih]
+    constructor
+    · rintro ⟨h0, hr⟩ j v hj
+      cases j with
+      | zero => simp at hj; subst hj; simpa using h0
+      | succ j =>
+        simp at hj
+        have := hr j v hj
+        simpa [Nat.add_assoc, Nat.add_comm 1 j] using this
+    · intro hall
+      refine ⟨by simpa using hall 0 a (by simp), ?_⟩
+      intro j v hj
+      have := hall (j + 1) v (by simpa using hj)
+      simpa [Nat.add_assoc, Nat.add_comm 1 j] using this
+
+theorem acceptedFrom_nil (h : Option Handler) (k : Nat) : AcceptedFrom h k [] := trivial
+
+theorem not_acceptedFrom_none (k : Nat) (v : VCall) (vs : List VCall) : ¬ AcceptedFrom none k (v :: vs) := by
+  simp [AcceptedFrom]
+
+/-! ### configuration -/
+
+theorem pin_modes : Gen.Tls.verifyModeTrust = 0 ∧ Gen.Tls.verifyModeDefault = 1 ∧
+    Gen.Tls.callbackTrustName = "NULL" ∧ Gen.Tls.callbackDefaultName = "_tls_verify" := by decide
+
+theorem cfg_trust (p : Policy) (h : p.trust = true) :
+    (sslCfg p).verifyMode = 0 ∧ (sslCfg p).hasCallback = false := by
+  simp [sslCfg, h, pin_modes.1, pin_modes.2.2.1]
+
+theorem cfg_notrust (p : Policy) (h : p.trust = false) :
+    (sslCfg p).verifyMode = 1 ∧ (sslCfg p).hasCallback = true := by
+  have : Gen.Tls.callbackDefaultName != "NULL" := by decide
+  simp [sslCfg, h, pin_modes.2.1, this]
+
+theorem verifyCb_trust (p : Policy) (h : p.trust = true) : verifyCb p = none := by
+  simp [verifyCb, (cfg_trust p h).2]
+
+theorem verifyCb_notrust (p : Policy) (h : p.trust = false) : verifyCb p = some (tlsVerify p.handler) := by
+  simp [verifyCb, (cfg_notrust p h).2]
+
+/-! ### tls_start under H-openssl -/
+
+/-- the handshake succeeds iff the peer completes its side and (trust flag, or the handler accepted
+    each failure OpenSSL reports for this peer under the configuration tls_new set up) -/
+theorem tlsStart_ok_iff (E : Engine) (P : Peer) (H : HOpenSsl E P) (p : Policy) :
+    (tlsStart E p).ok = true ↔
+      P.completes = true ∧ (p.trust = true ∨ AcceptedFrom p.handler 0 (failures (P.facts (sslCfg p)))) := by
+  unfold tlsStart
+  rw [H.ok_iff]
+  cases hc : P.completes with
+  | false => simp
+  | true =>
+    cases ht : p.trust with
+    | true => simp [(cfg_trust p ht).1]
+    | false =>
+      have hm := (cfg_notrust p ht).1
+      rw [H.calls_eq _ _ hc, verifyCb_notrust p ht]
+      simp only [hm, Option.getD_some]
+      rw [show ((1 : Nat) == 0) = false from rfl]
+      simp [accepted_run_iff]
+
+theorem tlsStart_calls (E : Engine) (P : Peer) (H : HOpenSsl E P) (p : Policy) (hc : P.completes = true) :
+    (tlsStart E p).calls =
+      run (if p.trust then defaultCb else tlsVerify p.handler) 0 (P.facts (sslCfg p)) := by
+  unfold tlsStart
+  rw [H.calls_eq _ _ hc]
+  cases ht : p.trust with
+  | true => simp [verifyCb_trust p ht]
+  | false => simp [verifyCb_notrust p ht]
+
+/-! ### conn_tls_start -/
+
+theorem pin_rc : Gen.Tls.rcDisabled = -2 ∧ Gen.Tls.rcNewFail = -1 ∧ Gen.Tls.rcStartFail = -3 := by decide
+
+/-- return code 0 iff TLS enabled, tls_new succeeded and the handshake succeeded -/
+theorem rc_zero_iff (E : Engine) (c : Conn) :
+    (connTlsStart E c).2 = 0 ↔
+      c.policy.disabled = false ∧ E.newOk = true ∧ (tlsStart E c.policy).ok = true := by
+  unfold connTlsStart
+  cases hd : c.policy.disabled <;> cases hn : E.newOk <;> cases ho : (tlsStart E c.policy).ok <;>
+    simp [hd, hn, ho, pin_rc.1, pin_rc.2.1, pin_rc.2.2]
+
+theorem secured_after (E : Engine) (c : Conn) :
+    isSecured (connTlsStart E c).1 = true ↔
+      c.policy.disabled = false ∧ E.newOk = true ∧ c.tlsFailed = false ∧ (tlsStart E c.policy).ok = true := by
+  unfold connTlsStart isSecured
+  cases hd : c.policy.disabled <;> cases hn : E.newOk <;> cases ho : (tlsStart E c.policy).ok <;>
+    cases hf : c.tlsFailed <;> simp [hd, hn, ho, hf]
+
+/-- what a failed conn_tls_start leaves behind -/
+theorem failed_start (E : Engine) (c : Conn) (h : (connTlsStart E c).2 ≠ 0) :
+    isSecured (connTlsStart E c).1 = false ∧ (connTlsStart E c).1.hasTls = false ∧
+      (connTlsStart E c).1.intfTls = c.intfTls ∧ (connTlsStart E c).1.secured = c.secured ∧
+      (connTlsStart E c).1.state = c.state := by
+  have hz := rc_zero_iff E c
+  unfold connTlsStart isSecured at *
+  cases hd : c.policy.disabled <;> cases hn : E.newOk <;> cases ho : (tlsStart E c.policy).ok <;>
+    simp_all
+
+/-- a handshake that was run and failed marks the connection (`tls_failed`), stores the error class
+    and answers XMPP_EINT -/
+theorem failed_handshake (E : Engine) (c : Conn) (hd : c.policy.disabled = false) (hn : E.newOk = true)
+    (ho : (tlsStart E c.policy).ok = false) :
+    (connTlsStart E c).2 = Gen.Tls.rcStartFail ∧ (connTlsStart E c).1.tlsFailed = true ∧
+      (connTlsStart E c).1.error = ((tlsStart E c.policy).err : Int) := by
+  simp [connTlsStart, hd, hn, ho]
+
+/-! ### the callers and the wire -/
+
+theorem writePass_disconnected (s : Sess) (h : s.conn.state = .disconnected) : writePass s = s := by
+  simp [writePass, h]
+
+theorem send_disconnected (s : Sess) (i : Item) (h : s.conn.state = .disconnected) : send s i = s := by
+  simp [send, h]
+
+/-- once disconnected nothing is written any more, whatever the user sends -/
+theorem probe_disconnected (s : Sess) (g : Bool) (h : s.conn.state = .disconnected) : probe s g = s := by
+  unfold probe
+  cases hg : (g && !s.negotiated) <;> simp [hg, send_disconnected _ _ h, writePass_disconnected _ h]
+
+theorem tick_disconnected (s : Sess) (h : s.conn.state = .disconnected) : tick s = s :=
+  writePass_disconnected s h
+
+/-- STARTTLS, handshake failed: the only thing written after `<starttls/>` is the closing tag, in the
+    same loop iteration the connection is torn down (ECONNABORTED), nothing goes through TLS -/
+theorem starttls_failure (E : Engine) (p : Policy) (hd : p.disabled = false) (hn : E.newOk = true)
+    (ho : (tlsStart E p).ok = false) (he : (tlsStart E p).err ≠ 0) :
+    (start E p .starttls).clear = [.hdr, .starttls, .close] ∧ (start E p .starttls).enc = [] ∧
+    (start E p .starttls).queue = [] ∧
+    (start E p .starttls).conn.state = .disconnected ∧ isSecured (start E p .starttls).conn = false ∧
+    (start E p .starttls).evs = [.disconnect Gen.Tls.teardownError] := by
+  have he' : ((tlsStart E p).err : Int) ≠ 0 := by exact_mod_cast he
+  simp [start, attempt, connTlsStart, writePass, send, xmppDisconnect, connDisconnect, isSecured,
+    hd, hn, ho, he, he', pin_rc.2.2]
+
+/-- legacy SSL, handshake failed: nothing is written at all, the connection is closed at once -/
+theorem legacy_failure (E : Engine) (p : Policy) (hd : p.disabled = false) (hn : E.newOk = true)
+    (ho : (tlsStart E p).ok = false) :
+    (start E p .legacy).clear = [] ∧ (start E p .legacy).enc = [] ∧ (start E p .legacy).queue = [] ∧
+    (start E p .legacy).conn.state = .disconnected ∧ isSecured (start E p .legacy).conn = false ∧
+    (start E p .legacy).evs = [.disconnect ((tlsStart E p).err : Int)] := by
+  simp [start, attempt, connTlsStart, connDisconnect, isSecured, hd, hn, ho, pin_rc.2.2]
+
+/-- xmpp_conn_tls_start on a raw connection, handshake failed: XMPP_EINT, interface restored, and
+    the next loop iteration tears the connection down -/
+theorem direct_failure (E : Engine) (p : Policy) (hd : p.disabled = false) (hn : E.newOk = true)
+    (ho : (tlsStart E p).ok = false) (he : (tlsStart E p).err ≠ 0) :
+    (start E p .direct).rc = some Gen.Tls.rcStartFail ∧
+    (start E p .direct).clear = [] ∧ (start E p .direct).enc = [] ∧
+    (start E p .direct).conn.state = .disconnected ∧ isSecured (start E p .direct).conn = false ∧
+    (start E p .direct).conn.intfTls = false := by
+  have he' : ((tlsStart E p).err : Int) ≠ 0 := by exact_mod_cast he
+  simp [start, attempt, connTlsStart, writePass, connDisconnect, isSecured, hd, hn, ho, he, he', pin_rc.2.2]
+
+/-- whatever the engine, the policy and the way the handshake is reached: data goes through TLS
+    during `start` only after a successful handshake, and then the connection reports secured -/
+theorem enc_only_after_handshake (E : Engine) (p : Policy) (path : Path)
+    (h : (start E p path).enc ≠ []) :
+    p.disabled = false ∧ E.newOk = true ∧ (tlsStart E p).ok = true ∧ isSecured (start E p path).conn = true := by
+  cases path <;> cases hd : p.disabled <;> cases hn : E.newOk <;> cases ho : (tlsStart E p).ok <;>
+    simp [start, attempt, connTlsStart, writePass, send, xmppDisconnect, connDisconnect, negotiateOverTls,
+      isSecured, hd, hn, ho, pin_rc.1, pin_rc.2.1, pin_rc.2.2] at h ⊢ <;>
+    (try (split at h <;> simp_all))
+
+/-! ### H-openssl is satisfiable: an engine that behaves exactly as the contract says -/
+
+/-- events an ideal verifier reports for a chain: issuer not found (20), host name mismatch (62),
+    outside validity (10), then the leaf passes -/
+def idealFacts (cert : PeerCert) (cfg : SslCfg) : List VCall :=
+  (if cert.chains then [] else [⟨false, 0, 20⟩]) ++
+  (if hostOk cert cfg then [] else [⟨false, 0, 62⟩]) ++
+  (if cert.inValidity then [] else [⟨false, 0, 10⟩]) ++ [⟨true, 0, 0⟩]
+
+def idealPeer (completes : Bool) (cert : PeerCert) : Peer :=
+  { completes := completes, cert := cert, facts := idealFacts cert }
+
+def idealEngine (newOk completes : Bool) (cert : PeerCert) : Engine :=
+  { newOk := newOk,
+    connect := fun cfg cb =>
+      if completes then
+        let calls := run (cb.getD defaultCb) 0 (idealFacts cert cfg)
+        let ok := cfg.verifyMode == 0 || accepted calls
+        { calls := calls, ok := ok, err := if ok then 0 else 1 }
+      else { calls := [], ok := false, err := 1 } }
+
+theorem ideal_satisfies (newOk completes : Bool) (cert : PeerCert) :
+    HOpenSsl (idealEngine newOk completes cert) (idealPeer completes cert) where
+  calls_eq := by
+    intro cfg cb hc
+    simp [idealPeer] at hc
+    simp [idealEngine, idealPeer, hc]
+  no_peer_no_calls := by
+    intro cfg cb hc
+    simp [idealPeer] at hc
+    simp [idealEngine, hc]
+  ok_iff := by
+    intro cfg cb
+    cases completes <;> simp [idealEngine, idealPeer]
+  err_iff := by
+    intro cfg cb
+    cases completes
+    · simp [idealEngine]
+    · simp only [idealEngine, if_true]
+      cases h : (cfg.verifyMode == 0 || accepted (run (cb.getD defaultCb) 0 (idealFacts cert cfg))) <;> simp [h]
+  sound := by
+    intro cfg _ _
+    simp only [idealPeer, idealFacts, good]
+    cases cert.chains <;> cases hostOk cert cfg <;> cases cert.inValidity <;> simp
 
 end Strophe.Lemmas.TlsTrust
